@@ -223,7 +223,9 @@ def reach_witness(sc, r1, r2):
     """scenarios under a ReachAngularPosition rule are not compared instant by instant (where braking starts is a threshold that moves
     with the load torque), but WHEN braking starts must not depend on the units: the first instant at which the duty cycle leaves 1
     may differ by a step or two, not by a tenth of the run"""
-    single = [op for op in sc['ops'] if op[0] == 'run']
+    # the final history is what was simulated after the last reset: one run there, under one ReachAngularPosition rule, no stop
+    last = max([i for i, op in enumerate(sc['ops']) if op[0] == 'reset'] + [-1])
+    single = [op for op in sc['ops'][last + 1:] if op[0] == 'run']
     if len(single) != 1 or not single[0][3] or len(single[0][3]) != 1 or single[0][3][0]['r'] != 'reach' or single[0][4]:
         return None
     if any(op[0] in ('setpwm',) for op in sc['ops']):
